@@ -6,7 +6,7 @@
 From Coq Require Import String.
 From Coq Require Import List Arith NArith Bool Lia.
 Import ListNotations.
-From YP Require Import Base.Str Engine.Resolve Engine.ResolveProofs Engine.RunResolve.
+From YP Require Import Base.Str Engine.Resolve Engine.ResolveProofs Engine.ResolveLate Engine.RunResolve.
 
 Definition sctx := str -> list def.
 Definition sdb := (str * nat) -> list fact.
@@ -153,3 +153,229 @@ Proof.
   induction ops as [|o ops IH]; intros st; [reflexivity|].
   simpl. destruct (do_op fuel o st) as [ob st']. simpl. rewrite IH. reflexivity.
 Qed.
+
+(* ------------------------------------------------------------------ created but not started *)
+
+(* Creating a query object runs nothing (a Python generator function only runs at the first
+   `next`): the object holds the name and the arguments, no fact list and no definition.  So
+   before its first resumption nothing is fixed: whatever is done to the engine between
+   `q = yp.query(..)` and the first `next(q)` - and whatever the engine was when q was
+   created - the first `next` is computed from the engine of THAT moment (and from then on
+   Engine/ResolveLate.v resolution_at_first_resumption applies). *)
+
+(* operations that neither resume nor close the suspended query number i *)
+Definition leaves (i : nat) (o : op) : bool :=
+  match o with ONext j | OClose j => negb (Nat.eqb i j) | _ => true end.
+
+Lemma set_nth_other {A} (l : list A) : forall j i x, i <> j -> nth_error (set_nth l j x) i = nth_error l i.
+Proof.
+  induction l as [|y l IH]; intros j i x Hne; [destruct j; reflexivity|].
+  destruct j as [|j]; destruct i as [|i]; simpl; try reflexivity; [congruence|].
+  apply IH. congruence.
+Qed.
+
+Lemma do_op_keeps_susp fuel o st i x :
+  leaves i o = true -> nth_error (st_susp st) i = Some x ->
+  nth_error (st_susp (snd (do_op fuel o st))) i = Some x.
+Proof.
+  intros Hl Hn.
+  destruct o as [name sty d | sc ow | name vals app | | name n | j | j]; cbn [do_op].
+  - exact Hn.
+  - destruct (load (e_ctx (st_eng st)) sc ow); exact Hn.
+  - exact Hn.
+  - exact Hn.
+  - cbn [snd st_susp]. rewrite nth_error_app1; [exact Hn|]. apply nth_error_Some. congruence.
+  - cbn [leaves] in Hl. apply negb_true_iff, Nat.eqb_neq in Hl.
+    destruct (nth_error (st_susp st) j) as [[[g|] n]|]; try exact Hn.
+    destruct (g (st_eng st)) as [[| | |]|s k]; cbn [snd st_susp]; rewrite set_nth_other by exact Hl; exact Hn.
+  - cbn [leaves] in Hl. apply negb_true_iff, Nat.eqb_neq in Hl.
+    destruct (nth_error (st_susp st) j) as [[g n]|]; try exact Hn.
+    cbn [snd st_susp]. rewrite set_nth_other by exact Hl. exact Hn.
+Qed.
+
+Lemma exec_ops_keeps_susp fuel i x ops : forall st,
+  forallb (leaves i) ops = true -> nth_error (st_susp st) i = Some x ->
+  nth_error (st_susp (exec_ops fuel ops st)) i = Some x.
+Proof.
+  induction ops as [|o ops IH]; intros st Hl Hn; [exact Hn|].
+  cbn [forallb] in Hl. apply andb_true_iff in Hl. destruct Hl as [Ho Hl].
+  unfold exec_ops. cbn [fold_left]. apply IH; [exact Hl|]. apply do_op_keeps_susp; assumption.
+Qed.
+
+(* what `next` reports for a step of the generator *)
+Definition step_obs (n : nat) (st : step) : obs :=
+  match st with
+  | Done Norm => otag "stop" []
+  | Done Cut => otag "cut" []
+  | Done Raise => otag "raised" []
+  | Done Oof => otag "oof" []
+  | Yield s _ => otag "ans" [ans_obs n s]
+  end.
+
+(* the query object created by `start` in ANY state is the same closed object - it does not
+   mention the engine it was created in - and it is still that object after any operations
+   (engine changes, other queries) that do not resume it *)
+Theorem created_query_unresolved fuel name n st ops :
+  let i := length (st_susp st) in
+  forallb (leaves i) ops = true ->
+  nth_error (st_susp (exec_ops fuel ops (snd (do_op fuel (OStart name n) st)))) i =
+  Some (Some (query_gen fuel name (seq 0 n) n []), n).
+Proof.
+  intros i Hl. apply exec_ops_keeps_susp; [exact Hl|].
+  cbn [do_op snd st_susp]. unfold i. rewrite nth_error_app2 by lia. rewrite Nat.sub_diag. reflexivity.
+Qed.
+
+(* a `next` applies the suspended generator to the engine of the moment of the `next` *)
+Theorem next_uses_current_engine fuel i st g n :
+  nth_error (st_susp st) i = Some (Some g, n) ->
+  fst (do_op fuel (ONext i) st) = step_obs n (g (st_eng st)).
+Proof.
+  intros Hn. cbn [do_op]. rewrite Hn. destruct (g (st_eng st)) as [[| | |]|s k]; reflexivity.
+Qed.
+
+(* together: the first `next` of a query created earlier sees the engine of the first `next` *)
+Theorem unstarted_query_sees_engine_of_first_next fuel name n st ops :
+  let i := length (st_susp st) in
+  forallb (leaves i) ops = true ->
+  let st' := exec_ops fuel ops (snd (do_op fuel (OStart name n) st)) in
+  fst (do_op fuel (ONext i) st') = step_obs n (query_gen fuel name (seq 0 n) n [] (st_eng st')).
+Proof.
+  intros i Hl st'. apply next_uses_current_engine. apply created_query_unresolved. exact Hl.
+Qed.
+
+(* witness: p(f) and p(old) exist when q is created; before its first next p(g) is put in front
+   of the facts and p(old) is replaced by p(new): q answers g, f, new *)
+Local Open Scope string_scope.
+Example unstarted_query_witness :
+  let df (a : string) := mkDef (Some 1) [mkClause 0 [GUnify 0 (d a)]] in
+  let ld (a : string) := OLoad (mkScript false [SDef (mkkey (d "p") (AFix 1)) (df a)]) true in
+  run_history 3 5 []
+    [OAssert (d "p") [d "f"] true; ld "old"; OStart (d "p") 1; ld "new"; OAssert (d "p") [d "g"] false;
+     ONext 0; ONext 0; ONext 0; ONext 0] =
+  OL (map (fun o => OL [o; OL []])
+       [otag "ok" []; otag "ok" []; otag "ok" []; otag "ok" []; otag "ok" [];
+        otag "ans" [OL [OS (d "g")]]; otag "ans" [OL [OS (d "f")]]; otag "ans" [OL [OS (d "new")]]; otag "stop" []]).
+Proof. vm_compute. reflexivity. Qed.
+
+(* ------------------------------------------------------------------ histories and schedules *)
+
+(* The theorems of Engine/ResolveLate.v speak about run_sched (a generator resumed under a list of
+   engines); the correspondence check runs HISTORIES (run_ops).  They are the same thing: the
+   results of the `next` operations on suspended query i in a history are the run of its generator
+   under the schedule made of the engines current at these `next`. *)
+
+Definition is_close (i : nat) (o : op) : bool := match o with OClose j => Nat.eqb i j | _ => false end.
+Definition is_next (i : nat) (o : op) : bool := match o with ONext j => Nat.eqb i j | _ => false end.
+
+(* results of the `next i` operations of a history, in order / the engines they were made in *)
+Fixpoint nexts_of (fuel i : nat) (ops : list op) (st : state) : list obs :=
+  match ops with
+  | [] => []
+  | o :: r => if is_next i o then fst (do_op fuel o st) :: nexts_of fuel i r (snd (do_op fuel o st))
+              else nexts_of fuel i r (snd (do_op fuel o st))
+  end.
+
+Fixpoint engines_at (fuel i : nat) (ops : list op) (st : state) : list engine :=
+  match ops with
+  | [] => []
+  | o :: r => if is_next i o then st_eng st :: engines_at fuel i r (snd (do_op fuel o st))
+              else engines_at fuel i r (snd (do_op fuel o st))
+  end.
+
+(* what a sequence of `next` reports for a generator (None = it has ended) under a schedule *)
+Fixpoint sched_obs (n : nat) (es : list engine) (g : option gen) : list obs :=
+  match es with
+  | [] => []
+  | e :: r =>
+      match g with
+      | None => otag "stop" [] :: sched_obs n r None
+      | Some g => match g e with
+                  | Done f => step_obs n (Done f) :: sched_obs n r None
+                  | Yield s k => otag "ans" [ans_obs n s] :: sched_obs n r (Some k)
+                  end
+      end
+  end.
+
+Lemma set_nth_same {A} (l : list A) : forall i x y, nth_error l i = Some y -> nth_error (set_nth l i x) i = Some x.
+Proof.
+  induction l as [|z l IH]; intros [|i] x y H; simpl in *; try discriminate; [reflexivity|].
+  eapply IH. exact H.
+Qed.
+
+Lemma leaves_of i o : is_next i o = false -> is_close i o = false -> leaves i o = true.
+Proof.
+  destruct o; simpl; intros H1 H2; try reflexivity; [rewrite H1 | rewrite H2]; reflexivity.
+Qed.
+
+Theorem nexts_are_schedule fuel i n ops : forall st g,
+  nth_error (st_susp st) i = Some (g, n) ->
+  forallb (fun o => negb (is_close i o)) ops = true ->
+  nexts_of fuel i ops st = sched_obs n (engines_at fuel i ops st) g.
+Proof.
+  induction ops as [|o ops IH]; intros st g Hn Hc; [reflexivity|].
+  cbn [forallb] in Hc. apply andb_true_iff in Hc. destruct Hc as [Ho Hc]. apply negb_true_iff in Ho.
+  cbn [nexts_of engines_at]. destruct (is_next i o) eqn:En.
+  - destruct o as [| | | | | j | j]; try discriminate. cbn [is_next] in En. apply Nat.eqb_eq in En. subst j.
+    cbn [sched_obs]. cbn [do_op]. rewrite Hn. destruct g as [g|].
+    + destruct (g (st_eng st)) as [fi|s k] eqn:Eg.
+      * assert (Hst : nexts_of fuel i ops (mkState (st_eng st) (set_nth (st_susp st) i (None, n))) =
+                      sched_obs n (engines_at fuel i ops (mkState (st_eng st) (set_nth (st_susp st) i (None, n)))) None).
+        { apply IH; [|exact Hc]. cbn [st_susp]. eapply set_nth_same. exact Hn. }
+        destruct fi; cbn [fst snd step_obs]; f_equal; exact Hst.
+      * cbn [fst snd]. f_equal. apply IH; [|exact Hc]. cbn [st_susp]. eapply set_nth_same. exact Hn.
+    + cbn [fst snd]. f_equal. apply IH; assumption.
+  - apply IH; [|exact Hc]. apply do_op_keeps_susp; [|exact Hn]. apply leaves_of; assumption.
+Qed.
+
+Definition run_obs (n len : nat) (r : list store * option fin) : list obs :=
+  map (fun s => otag "ans" [ans_obs n s]) (fst r) ++
+  match snd r with
+  | None => []
+  | Some f => step_obs n (Done f) :: repeat (otag "stop" []) (len - S (length (fst r)))
+  end.
+
+Lemma sched_obs_none n es : sched_obs n es None = repeat (otag "stop" []) (length es).
+Proof. induction es as [|e r IH]; simpl; [reflexivity|]. rewrite IH. reflexivity. Qed.
+
+Lemma sched_obs_run n es : forall g, sched_obs n es (Some g) = run_obs n (length es) (run_sched es g).
+Proof.
+  induction es as [|e r IH]; intros g; [reflexivity|].
+  cbn [sched_obs run_sched]. destruct (g e) as [f|s k].
+  - unfold run_obs. cbn [fst snd map app length]. rewrite sched_obs_none.
+    replace (S (length r) - 1) with (length r) by lia. reflexivity.
+  - rewrite IH. destruct (run_sched r k) as [l fo]. unfold run_obs. cbn [fst snd map app length]. reflexivity.
+Qed.
+
+(* CALL-TIME RESOLUTION OVER HISTORIES.  Take the query object q of a call name/n (created by
+   `start`, not yet resumed) in two states and let two arbitrary histories run (never closing q).
+   If the FIRST `next` of q finds the same engine e0 in both, the definitions e0 holds for name/n
+   make no calls, and q is resumed equally often, then every `next` of q reports the same in both
+   histories - whatever else the histories do to the engine before, between and after. *)
+Theorem history_call_time_resolution f name n i1 i2 ops1 ops2 st1 st2 e0 es1 es2 :
+  let q := query_gen (S f) name (seq 0 n) n [] in
+  nth_error (st_susp st1) i1 = Some (Some q, n) -> nth_error (st_susp st2) i2 = Some (Some q, n) ->
+  forallb (fun o => negb (is_close i1 o)) ops1 = true -> forallb (fun o => negb (is_close i2 o)) ops2 = true ->
+  engines_at (S f) i1 ops1 st1 = e0 :: es1 -> engines_at (S f) i2 ops2 st2 = e0 :: es2 ->
+  length es1 = length es2 ->
+  forallb callfree (call_defs e0 name n) = true ->
+  nexts_of (S f) i1 ops1 st1 = nexts_of (S f) i2 ops2 st2.
+Proof.
+  intros q H1 H2 Hc1 Hc2 He1 He2 Hl Hcf.
+  rewrite (nexts_are_schedule _ _ _ _ _ _ H1 Hc1), (nexts_are_schedule _ _ _ _ _ _ H2 Hc2), He1, He2.
+  rewrite !sched_obs_run. cbn [length]. rewrite Hl. f_equal.
+  apply call_time_resolution; [|exact Hl]. rewrite seq_length. exact Hcf.
+Qed.
+
+(* witness: after `assert p(f); load p(old); q = query p(X)` the history that replaces p(old) by
+   p(new) and asserts p(g) while q is suspended on the fact, and the history that leaves the
+   engine alone, report the same three `next` of q: f, old, stop *)
+Example history_call_time_witness :
+  let df (a : string) := mkDef (Some 1) [mkClause 0 [GUnify 0 (d a)]] in
+  let ld (a : string) := OLoad (mkScript false [SDef (mkkey (d "p") (AFix 1)) (df a)]) true in
+  let st := exec_ops 3 [OAssert (d "p") [d "f"] true; ld "old"; OStart (d "p") 1] (mkState empty_engine []) in
+  nth_error (st_susp st) 0 = Some (Some (query_gen 3 (d "p") (seq 0 1) 1 []), 1) /\
+  nexts_of 3 0 [ONext 0; ld "new"; OAssert (d "p") [d "g"] false; ONext 0; OClear; ONext 0] st =
+    [otag "ans" [OL [OS (d "f")]]; otag "ans" [OL [OS (d "old")]]; otag "stop" []] /\
+  nexts_of 3 0 [ONext 0; ONext 0; ONext 0] st =
+    [otag "ans" [OL [OS (d "f")]]; otag "ans" [OL [OS (d "old")]]; otag "stop" []].
+Proof. repeat split; vm_compute; reflexivity. Qed.
